@@ -133,6 +133,15 @@ def make_case(i):
         M.cells[k] = cell
         if in_lib:
             M.lib.append(k)
+    # references from library cells to cells that were never added to the library (kept acyclic: the outside cell only refers to
+    # library cells created before the referring one)
+    for k in range(ncells):
+        if rnd.random() < 0.3:
+            ok_ = [s_ for s_ in range(ncells, ncells + nspare) if all(t_ < k for kind_, t_ in M.cells[s_]['refs'] if kind_ == 'cell')]
+            if ok_:
+                s_ = rnd.choice(ok_)
+                c.op('ref', 'c%d' % k, 'cell', 'c%d' % s_, '0.0', '0.0', '0.0', '1.0', 0)
+                M.cells[k]['refs'].append(('cell', s_))
     for rn in rnames:
         if rnd.random() < 0.5:
             c.op('lib_add_raw', 'l0', 'n' + rn.encode().hex())
@@ -201,6 +210,46 @@ def make_case(i):
             if rewrote or M.referenced(k):
                 nontrivial = True
             query('rename')
+        elif x < 0.8 and rnd.random() < 0.2 and len(spare) >= 2:
+            # replace a cell that is not (or no longer) in the library: nothing is inserted, references are redirected all the same
+            refd = [k for k in spare if M.referenced(k)]
+            old_id = rnd.choice(refd) if refd and rnd.random() < 0.8 else rnd.choice(spare)
+            new_id = rnd.choice([k for k in spare if k != old_id])
+            old_name, new_name_ = M.cells[old_id]['name'], M.cells[new_id]['name']
+            if new_name_ in M.names_in_use() or old_name in M.names_in_use():
+                continue
+            T = copy.deepcopy(M.cells)
+            for i_ in M.lib:
+                T[i_]['refs'] = [(('cell', new_id) if r_ == ('cell', old_id) else r_) for r_ in T[i_]['refs']]
+
+            def cyc2(v, stack, seen):
+                if v in stack:
+                    return True
+                if v in seen:
+                    return False
+                seen.add(v)
+                stack.add(v)
+                for k_, t_ in T[v]['refs']:
+                    if k_ == 'cell' and cyc2(t_, stack, seen):
+                        return True
+                stack.discard(v)
+                return False
+            if any(cyc2(v, set(), set()) for v in T):
+                continue
+            c.op('replace_cell', 'l0', 'c%d' % old_id, 'c%d' % new_id)
+            rewrote = False
+            for i in M.lib:
+                refs = M.cells[i]['refs']
+                for j, r_ in enumerate(refs):
+                    if r_ == ('cell', old_id):
+                        refs[j] = ('cell', new_id)
+                        rewrote = True
+                    elif r_ == ('name', old_name) and new_name_ != old_name:
+                        refs[j] = ('name', new_name_)
+                        rewrote = True
+            if rewrote:
+                nontrivial = True
+            query('replace_absent')
         elif x < 0.8:
             # replace: choose overload
             olds = []
@@ -446,7 +495,7 @@ def run(tier):
                        'a deep library copy keeps designating the source library\'s cells, as Reference::copy_from is written',
                        'cell and raw-cell names stay unique in the library (operations that would break this are not generated)']
     chk.floor('cases_judged', chk.coverage.get('cases_judged', 0), int(0.95 * n))
-    for k in ('op_rename', 'op_replace_cell_cell', 'op_replace_cell_raw', 'op_replace_raw_cell', 'op_replace_raw_raw', 'op_remap', 'op_copy'):
+    for k in ('op_rename', 'op_replace_cell_cell', 'op_replace_cell_raw', 'op_replace_raw_cell', 'op_replace_raw_raw', 'op_replace_absent', 'op_remap', 'op_copy'):
         chk.floor(k, chk.coverage.get(k, 0), 30)
     chk.finish()
 
